@@ -9,20 +9,18 @@ from . import semantics
 SUBC = 'cirbo.minimization.subcircuit'
 
 
-class _Self(Host):
-    pass
-
-
 def eval_pattern(repo, tname, n):
     """Result pattern of `eval_pattern` on the n canonical operand patterns over 3 variables
-    (8 bit columns), or 'raise:<E>'. Column k of operand i holds bit i of k."""
+    (8 bit columns), or 'raise:<E>'. Column k of operand i holds bit i of k.  The simulator is an
+    instance of the repository's own class (so helper methods and class-level tables are found)."""
+    from .interp import RepoClass
     mod = repo.mod(SUBC)
     it = Interp(repo)
-    obj = _Self()
-    RepoFunc(it, mod, mod.func('_PatternOperations.__init__'))(obj, 3)
+    it.real_super = True
+    obj = it.instantiate(RepoClass(mod, mod.cls('_PatternOperations')), (3,), {})
     pats = [0xF0, 0xCC, 0xAA][:n]
     try:
-        res = RepoFunc(it, mod, mod.func('_PatternOperations.eval_pattern'))(obj, list(pats), tname)
+        res = it.getattr(mod, None, obj, 'eval_pattern')(list(pats), tname)
     except InterpRaise as e:
         return f'raise:{e.exc_name}', obj
     return res, obj
